@@ -150,7 +150,7 @@ PROPS = {
         "assumptions": ASSUME_COMMON + ["measurement outcomes are inputs (the implementation's draw log); declared register sizes are positive in C11_refine_partial (a zero-size register is the known finding D22)"],
         "level_text": "Lean theorems (Props/C11.lean): Sym::finish factors through the event list of the block queue; each statement kind contributes exactly its event (an `if` ALWAYS its own cond event, never merged into a preceding unconditional block; measure and reset their own events; barrier nothing); a cond event applies its operator iff get_by_mask of the condition register equals the value; storeBits changes exactly the paired classical bits (set / xor mode); the interpreter's masks are the reference masks; and the whole pipeline Interp.new -> Sym.finish equals the statement-by-statement reference execution (Spec.refRun) on final state, classical register and remaining draws, for every accepted program with positive register sizes, both measurement modes, user-defined gates included (C11_refine_partial; the unrestricted statement is false because of D22 and is kept in a comment with its counterexample). Tied to the code by the intnu suite (random programs mixing gates, measure in bit and register form, if on any register / value / position, reset of bits and registers, barriers): interpreter state and execution compared with the model for the logged outcomes, and with the reference semantics.",
         "level_note": "Trusted: Lean kernel + standard axioms; model of int/mod.rs, ext_op.rs, sym.rs (after the D11/D12 repairs). reset statistics (C11 'does not change the outcome statistics of other qubits') follow from reset = measure + X and C07_chain.",
-        "technique": tech_tie("classical-bit set / xor / reset / get_by_mask functions, reset_by_mask / measure_mask, the block queue, its execution (Sym::finish) and the measure / reset / barrier statements of the interpreter are") + ' (incl. statement dispatch, gate application / definition / `if` statements and the session entry points process_node(s), process_apply_gate, process_gate, process_if, ast_changes, add_ast, Int::new of qasm/int/mod.rs, whose calls into macros.rs / parse.rs / gates.rs go to the hand-mirrored model functions tied by tools/canon.py and tools/extract.py)',
+        "technique": tech_tie("classical-bit set / xor / reset / get_by_mask functions, reset_by_mask / measure_mask, the block queue, its execution (Sym::finish) and the measure / reset / barrier statements of the interpreter are") + ' (incl. statement dispatch, gate application / definition / `if` statements and the session entry points process_node(s), process_apply_gate, process_gate, process_if, ast_changes, add_ast, Int::new of qasm/int/mod.rs, macros.rs and the arms of the gate! macro of gates.rs are translated as well; parse.rs, the gate-name table and the prefix arm of gates::process are hand-mirrored, tied by tools/canon.py and tools/extract.py)',
         "design_ref": "DESIGN.md section 5, C11 and Appendix B",
     },
     "C12": {
@@ -177,7 +177,7 @@ PROPS = {
         "assumptions": ASSUME_COMMON,
         "level_text": "Lean theorems (Props/C17.lean, 15): processing a concatenation is processing the parts in turn; adding chunks one by one (add_ast, or ast_changes + append_int: the same function in the model after the repairs) is accepted iff the whole text is, fails with the same error, and yields an interpreter with equal registers, gate definitions, measurement mode and an observationally equivalent block queue (equal runs for every outcome stream); the record of accepted chunks lists each chunk once, in order; running is invariant under that equivalence; reset after a run restores exactly Sym::new, so re-running reproduces the run from |0...0>. Tied to the code by the c17 suite: every program is fed whole, chunk by chunk through add_ast, and through ast_changes + append_int (1..5 chunks, with and without xor mode), executed with the same seed and compared on final state and classical register; chunk counts checked; reset+finish and init compared with the first run.",
         "level_note": "Trusted: Lean kernel + standard axioms; model of add_ast / ast_changes / append_int (after the D18/D19 repairs), ext_op.rs append/push, sym.rs.",
-        "technique": tech_tie("block queue (Op::push, Op::append), append_int / prepend_int and Sym::finish / reset are") + ' (incl. statement dispatch, gate application / definition / `if` statements and the session entry points process_node(s), process_apply_gate, process_gate, process_if, ast_changes, add_ast, Int::new of qasm/int/mod.rs, whose calls into macros.rs / parse.rs / gates.rs go to the hand-mirrored model functions tied by tools/canon.py and tools/extract.py)',
+        "technique": tech_tie("block queue (Op::push, Op::append), append_int / prepend_int and Sym::finish / reset are") + ' (incl. statement dispatch, gate application / definition / `if` statements and the session entry points process_node(s), process_apply_gate, process_gate, process_if, ast_changes, add_ast, Int::new of qasm/int/mod.rs, macros.rs and the arms of the gate! macro of gates.rs are translated as well; parse.rs, the gate-name table and the prefix arm of gates::process are hand-mirrored, tied by tools/canon.py and tools/extract.py)',
         "design_ref": "DESIGN.md section 5, C17 and Appendix B",
     },
     "C18": {
@@ -190,7 +190,7 @@ PROPS = {
         "assumptions": ASSUME_COMMON + ["the theorem is immediate for a model that interprets a chunk into a delta and commits on success; its weight is on the correspondence, which shows that the real add_ast behaves like that model for failing chunks with the error after 0..7 accepted statements (also new registers / gate definitions) and for the continuation"],
         "level_text": "Lean theorems (Props/C18.lean): a rejected chunk returns the session unchanged and a later chunk behaves as if the attempt never happened (C18_rollback, C18_continue); statements before the failing one leave nothing behind (C18_prefix_discarded); the computed changes depend only on the session's registers and gate definitions. Tied to the code by the c18 suite: session, snapshot, failing chunk (20 kinds of violation after a prefix of good statements incl. fresh registers and gate definitions), check that Debug-level summary of the session is identical to the snapshot, then a continuation chunk, executed and compared with a session that never saw the failing chunk.",
         "level_note": "Trusted: Lean kernel + standard axioms; model of add_ast (after the D19 repair).",
-        "technique": tech_tie("commit step append_int and the declaration functions are") + ' (incl. statement dispatch, gate application / definition / `if` statements and the session entry points process_node(s), process_apply_gate, process_gate, process_if, ast_changes, add_ast, Int::new of qasm/int/mod.rs, whose calls into macros.rs / parse.rs / gates.rs go to the hand-mirrored model functions tied by tools/canon.py and tools/extract.py)',
+        "technique": tech_tie("commit step append_int and the declaration functions are") + ' (incl. statement dispatch, gate application / definition / `if` statements and the session entry points process_node(s), process_apply_gate, process_gate, process_if, ast_changes, add_ast, Int::new of qasm/int/mod.rs, macros.rs and the arms of the gate! macro of gates.rs are translated as well; parse.rs, the gate-name table and the prefix arm of gates::process are hand-mirrored, tied by tools/canon.py and tools/extract.py)',
         "design_ref": "DESIGN.md section 5, C18",
     },
     "C19": {
@@ -233,7 +233,7 @@ PROPS = {
         "assumptions": ASSUME_COMMON + ["text -> AST (crate qvnt-qasm) and expression text -> RPN (crate meval) are external and not modelled: the model starts from the AST / RPN the real crates produced; the intended value of generated expressions is known to the generator and compared with what the pipeline applied"],
         "level_text": "Lean theorems (Props/C10.lean, 20): bit k of the alias mask is set iff the k-th declared (qu)bit belongs to that register, a register declared after `pre` occupies bits pre.length .. pre.length+n-1 and r[i] resolves to 2^(offset+i), distinct (qu)bits are disjoint; every accepted gate statement changes the queue by exactly one push of its operator and nothing else, measure/reset by exactly one separator block, barrier/declarations not at all, and statements compose in program order; one level of a user-defined gate is its body with formal qubits and parameters substituted, in body order. Tied to the code by the int suite (random programs with several registers, interleaved cregs, parameterised nested gate definitions, expression trees): interpreter state and executed result compared with the model, and the executed result compared with the statement-by-statement reference semantics (Spec/RefSem); by the c10f suite: programs with nested, repeatedly called and built-in-shadowing user gates are run against their flattened form (every expansion done by the generator with the actual qubits and parameter values) through the implementation itself, final states must agree.",
         "level_note": "Trusted: Lean kernel + standard axioms; hand-written model of int/mod.rs, macros.rs, parse.rs (RPN evaluation); external parsers as stated.",
-        "technique": tech_tie("block queue (Op::push, Op::append), its execution (Sym::finish), and the interpreter's declarations / argument resolution / queue separators (check_*, process_qreg, process_creg, get_*_idx_with_context, branch) are") + ' (incl. statement dispatch, gate application / definition / `if` statements and the session entry points process_node(s), process_apply_gate, process_gate, process_if, ast_changes, add_ast, Int::new of qasm/int/mod.rs, whose calls into macros.rs / parse.rs / gates.rs go to the hand-mirrored model functions tied by tools/canon.py and tools/extract.py)',
+        "technique": tech_tie("block queue (Op::push, Op::append), its execution (Sym::finish), and the interpreter's declarations / argument resolution / queue separators (check_*, process_qreg, process_creg, get_*_idx_with_context, branch) are") + ' (incl. statement dispatch, gate application / definition / `if` statements and the session entry points process_node(s), process_apply_gate, process_gate, process_if, ast_changes, add_ast, Int::new of qasm/int/mod.rs, macros.rs and the arms of the gate! macro of gates.rs are translated as well; parse.rs, the gate-name table and the prefix arm of gates::process are hand-mirrored, tied by tools/canon.py and tools/extract.py)',
         "design_ref": "DESIGN.md section 5, C10",
     },
     "C13": {
@@ -246,7 +246,7 @@ PROPS = {
         "assumptions": ASSUME_COMMON + ["statements the external parser itself rejects (e.g. a measure inside a gate body) surface as parse errors and are outside the model"],
         "level_text": "Lean theorems (Props/C13.lean, 52): the first error wins and nothing after it is looked at (a planted violation at any position is reported whatever follows); for each rule an iff-characterisation of when processNode returns that error with its exact payload and in which order the checks apply - undeclared / out-of-range register arguments, declaration limits (identifier length, register size, total size) and duplicates, measure size mismatch, non-gate under if, gate-body rules, unknown gate, register / parameter arity, control overlap, first unbound name in an expression; acceptance: a statement with no error condition is accepted and conversely (for programs using built-in gates). Tied to the code by the c13 suite: well-formed programs with exactly one planted violation (20 kinds) at a random position, expected variant checked on the implementation and payloads compared with the model; the same program without the violation must be accepted.",
         "level_note": "Trusted: Lean kernel + standard axioms; hand-written model of the interpreter's checks. Known finding: a zero-size register does not reserve its name (qreg a[0]; qreg a[1]; is accepted).",
-        "technique": tech_tie("static checks of declarations and argument resolution (check_ident, check_reg_size, check_dup, process_qreg, process_creg, get_*_idx_with_context, process_measure, process_reset) are") + ' (incl. statement dispatch, gate application / definition / `if` statements and the session entry points process_node(s), process_apply_gate, process_gate, process_if, ast_changes, add_ast, Int::new of qasm/int/mod.rs, whose calls into macros.rs / parse.rs / gates.rs go to the hand-mirrored model functions tied by tools/canon.py and tools/extract.py)',
+        "technique": tech_tie("static checks of declarations and argument resolution (check_ident, check_reg_size, check_dup, process_qreg, process_creg, get_*_idx_with_context, process_measure, process_reset) are") + ' (incl. statement dispatch, gate application / definition / `if` statements and the session entry points process_node(s), process_apply_gate, process_gate, process_if, ast_changes, add_ast, Int::new of qasm/int/mod.rs, macros.rs and the arms of the gate! macro of gates.rs are translated as well; parse.rs, the gate-name table and the prefix arm of gates::process are hand-mirrored, tied by tools/canon.py and tools/extract.py)',
         "design_ref": "DESIGN.md section 5, C13",
     },
     "C15": {
